@@ -15,6 +15,7 @@ one() {
     out=$(tools/try_seeded.sh "$d/patch.diff" "$ids" "$TIER" 2>&1); rc=$?
     if [ $rc -eq 0 ]; then echo "quiet    $d ($ids)"; elif [ $rc -eq 3 ]; then echo "n/a      $d (no longer applies: a later repair rewrote the lines it changes)"; else echo "ALARM    $d ($ids) rc=$rc $(echo "$out" | grep -E "^violation|TROUBLE" | head -3 | tr '\n' ' ' | cut -c1-400)"; fi ;;
   *)
+    if [ "$(jq -r '.still_missed // false' "$d/meta.json")" = "true" ]; then echo "limit    $d (recorded as out of reach of the checks: see its meta.json and DESIGN.md section 12)"; return; fi
     if [ "$(jq -r '.no_longer_breaks_property // false' "$d/meta.json")" = "true" ]; then echo "n/a      $d (does not break the property on HEAD any more: see its meta.json)"; return; fi
     out=$(tools/try_seeded.sh "$d/patch.diff" "$ids" "$TIER" 2>&1); rc=$?
     if [ $rc -eq 1 ]; then echo "caught   $d ($ids)"; elif [ $rc -eq 3 ]; then echo "n/a      $d (no longer applies: a later repair rewrote the lines it changes)"; else echo "MISSED   $d ($ids) rc=$rc"; fi ;;
